@@ -1181,7 +1181,7 @@ pub fn main(a: &Args) -> i32 {
     }
     let _ = std::fs::write(&nt_path, bytes);
     let summary = json!({
-        "engine": "e2", "worker": worker, "runs": runs,
+        "engine": "e2", "worker": worker, "runs": runs + sweep_points, "generated_cases": runs,
         "sums": {"stages": stats.stages, "intercepted_syscalls": stats.syscalls, "unconstrained_output_device_failures": stats.unconstrained,
                  "systematic_sweeps": sweeps, "systematic_sweep_points": sweep_points},
         "forms": forms, "faults_fired": stats.fired, "outcomes": stats.outcome, "probes": stats.probes,
